@@ -192,6 +192,7 @@ func (l heapFieldLV) store(st *State, v Term) {
 	f := &l.si.Fields[l.idx]
 	hn := fieldHeapName(l.si, f)
 	h := l.x.heapGet(st, hn, arraySort(SInt, f.Sort))
+	l.x.writeAt(st, hn, l.ref, false)
 	l.x.heapSet(st, hn, store(h, l.ref, v))
 }
 func (l heapFieldLV) typ() types.Type { return l.si.Fields[l.idx].Type }
